@@ -194,6 +194,46 @@ type vC10Query struct {
 	exp     int
 	wire    []byte
 	replies int
+	// what the query's own OPT carried: everything client-derived in the reply's
+	// OPT must come from here
+	hasOpt bool
+	do     bool
+	cookie []byte     // the 8-byte client cookie, nil when none was sent
+	ecs    net.IP     // the client subnet's address, nil when none was sent
+	ecsLen uint8
+}
+
+// vC10OptProvenance: every client-derived fact in the reply's OPT (the client
+// cookie inside COOKIE, the subnet inside ECS, the DO bit) must be what THIS
+// query sent; none of them can appear when the query did not send it.
+func vC10OptProvenance(q *vC10Query, m *dns.Msg) string {
+	opt := m.IsEdns0()
+	if opt == nil {
+		return ""
+	}
+	if opt.Do() && !q.do {
+		return fmt.Sprintf("id %d (%q): the reply has DO set, the query had not", q.id, q.name)
+	}
+	for _, o := range opt.Option {
+		switch v := o.(type) {
+		case *dns.EDNS0_COOKIE:
+			want := fmt.Sprintf("%x", q.cookie)
+			if q.cookie == nil {
+				return fmt.Sprintf("id %d (%q): the query carried no cookie and the reply carries COOKIE %s", q.id, q.name, v.Cookie)
+			}
+			if !strings.HasPrefix(strings.ToLower(v.Cookie), want) {
+				return fmt.Sprintf("id %d (%q): sent client cookie %s, the reply's COOKIE is %s", q.id, q.name, want, v.Cookie)
+			}
+		case *dns.EDNS0_SUBNET:
+			if q.ecs == nil {
+				return fmt.Sprintf("id %d (%q): the query carried no client subnet and the reply carries %s/%d", q.id, q.name, v.Address, v.SourceNetmask)
+			}
+			if !v.Address.Equal(q.ecs) && v.SourceNetmask != 0 {
+				return fmt.Sprintf("id %d (%q): sent client subnet %s/%d, the reply carries %s/%d", q.id, q.name, q.ecs, q.ecsLen, v.Address, v.SourceNetmask)
+			}
+		}
+	}
+	return ""
 }
 
 type vC10Stats struct {
@@ -243,6 +283,9 @@ func vC10Judge(q *vC10Query, body []byte, chain bool) string {
 			return fmt.Sprintf("id %d: asked %q, answer encodes %q", q.id, q.name, t.Txt)
 		}
 	}
+	if msg := vC10OptProvenance(q, m); msg != "" {
+		return msg
+	}
 	if q.exp == vC10ExpReply && m.Rcode == dns.RcodeSuccess && len(m.Answer) == 0 && !chain {
 		return fmt.Sprintf("id %d (%q): empty answer", q.id, q.name)
 	}
@@ -259,8 +302,23 @@ func vC10MakeQuery(r *rand.Rand, client, idx int, kinds []string, chain bool) *v
 		m := new(dns.Msg)
 		m.SetQuestion(name, dns.TypeTXT)
 		m.Id = q.id
-		if r.Intn(2) == 0 {
-			m.SetEdns0(1232, false)
+		// the OPT a client sends varies from query to query: none, bare, DO, a client
+		// cookie of its own, a client subnet of its own
+		shape := r.Intn(8)
+		if shape >= 2 {
+			q.hasOpt = true
+			q.do = shape == 3 || shape == 6
+			m.SetEdns0(uint16(1232+r.Intn(3)*512), q.do)
+			opt := m.IsEdns0()
+			if shape == 4 || shape == 5 || shape == 6 {
+				q.cookie = []byte{0xC0, byte(client), byte(idx >> 8), byte(idx), byte(r.Intn(256)), byte(r.Intn(256)), byte(r.Intn(256)), byte(r.Intn(256))}
+				opt.Option = append(opt.Option, &dns.EDNS0_COOKIE{Code: dns.EDNS0COOKIE, Cookie: fmt.Sprintf("%x", q.cookie)})
+			}
+			if shape == 7 || shape == 5 {
+				q.ecs = net.IPv4(198, byte(18+client%2), byte(client), 0).To4()
+				q.ecsLen = 24
+				opt.Option = append(opt.Option, &dns.EDNS0_SUBNET{Code: dns.EDNS0SUBNET, Family: 1, SourceNetmask: 24, Address: q.ecs})
+			}
 		}
 		b, _ := m.Pack()
 		return b
@@ -584,6 +642,134 @@ func vC10StartTCP(t *testing.T, h rawHandler, maxConns, small, large int) (strin
 	}
 }
 
+var vC10RecycleKinds = []string{"hot", "hot", "hot", "uniq", "uniq", "fresh", "opcode", "counts", "qr", "hot", "uniq", "short"}
+
+// vC10RecycleUDP: four client sockets take turns, one outstanding query at a time.
+func vC10RecycleUDP(t *testing.T, s *Server, r *rand.Rand, n int) *vC10Stats {
+	st := &vC10Stats{}
+	rig := vC10StartUDP(t, s, 1, 1, 2)
+	defer rig.stop()
+	var conns []*net.UDPConn
+	for i := 0; i < 4; i++ {
+		c, err := net.ListenUDP("udp4", &net.UDPAddr{IP: net.IPv4(127, 0, 0, 1)})
+		if err != nil {
+			return st
+		}
+		defer c.Close()
+		conns = append(conns, c)
+	}
+	buf := make([]byte, 65536)
+	byID := make([]map[uint16]*vC10Query, len(conns))
+	for i := range byID {
+		byID[i] = map[uint16]*vC10Query{}
+	}
+	check := func(ci int, d []byte) {
+		if len(d) < 12 {
+			st.fail("recycle client %d: a %d-byte datagram", ci, len(d))
+			return
+		}
+		q := byID[ci][binary.BigEndian.Uint16(d)]
+		if q == nil {
+			st.fail("recycle client %d: a reply with id %d this client never used", ci, binary.BigEndian.Uint16(d))
+			return
+		}
+		if msg := vC10Judge(q, d, true); msg != "" {
+			st.fail("recycle client %d: %s", ci, msg)
+			return
+		}
+		q.replies++
+		if q.replies > 1 {
+			st.fail("recycle client %d: id %d answered %d times", ci, q.id, q.replies)
+			return
+		}
+		atomic.AddInt64(&st.good, 1)
+	}
+	for i := 0; i < n; i++ {
+		ci := r.Intn(len(conns))
+		q := vC10MakeQuery(r, 40+ci, i, vC10RecycleKinds, true)
+		byID[ci][q.id] = q
+		if _, err := conns[ci].WriteToUDPAddrPort(q.wire, rig.targets[0]); err != nil {
+			continue
+		}
+		atomic.AddInt64(&st.sent, 1)
+		if q.exp == vC10ExpSilent {
+			continue
+		}
+		_ = conns[ci].SetReadDeadline(time.Now().Add(1500 * time.Millisecond))
+		m, _, err := conns[ci].ReadFromUDPAddrPort(buf)
+		if err != nil {
+			atomic.AddInt64(&st.missing, 1)
+			continue
+		}
+		check(ci, buf[:m])
+	}
+	// nothing may trail in on any socket
+	for ci, c := range conns {
+		for {
+			_ = c.SetReadDeadline(time.Now().Add(60 * time.Millisecond))
+			m, _, err := c.ReadFromUDPAddrPort(buf)
+			if err != nil {
+				break
+			}
+			check(ci, buf[:m])
+		}
+	}
+	return st
+}
+
+// vC10RecycleTCP: three connections take turns on an engine with a single small slab.
+func vC10RecycleTCP(t *testing.T, s *Server, r *rand.Rand, n int) *vC10Stats {
+	st := &vC10Stats{}
+	addr, stop := vC10StartTCP(t, s, 8, 1, 1)
+	defer stop()
+	var conns []net.Conn
+	for i := 0; i < 3; i++ {
+		c, err := net.Dial("tcp", addr)
+		if err != nil {
+			return st
+		}
+		defer c.Close()
+		conns = append(conns, c)
+	}
+	for i := 0; i < n; i++ {
+		ci := r.Intn(len(conns))
+		q := vC10MakeQuery(r, 50+ci, i, vC10RecycleKinds, true)
+		if len(q.wire) < 12 {
+			continue
+		}
+		out := binary.BigEndian.AppendUint16(nil, uint16(len(q.wire)))
+		out = append(out, q.wire...)
+		_ = conns[ci].SetDeadline(time.Now().Add(3 * time.Second))
+		if _, err := conns[ci].Write(out); err != nil {
+			return st
+		}
+		atomic.AddInt64(&st.sent, 1)
+		if q.exp == vC10ExpSilent {
+			continue
+		}
+		var pre [2]byte
+		if _, err := io.ReadFull(conns[ci], pre[:]); err != nil {
+			atomic.AddInt64(&st.missing, 1)
+			return st
+		}
+		body := make([]byte, binary.BigEndian.Uint16(pre[:]))
+		if _, err := io.ReadFull(conns[ci], body); err != nil {
+			st.fail("recycle tcp %d: the stream ends inside a frame", ci)
+			return st
+		}
+		if len(body) < 12 || binary.BigEndian.Uint16(body) != q.id {
+			st.fail("recycle tcp %d: expected the reply to id %d, got % x", ci, q.id, body[:min(len(body), 12)])
+			return st
+		}
+		if msg := vC10Judge(q, body, true); msg != "" {
+			st.fail("recycle tcp %d: %s", ci, msg)
+			return st
+		}
+		atomic.AddInt64(&st.good, 1)
+	}
+	return st
+}
+
 func TestVerifC10Stress(t *testing.T) {
 	out := os.Getenv("VERIF_OUT")
 	if out == "" {
@@ -699,7 +885,7 @@ func TestVerifC10Stress(t *testing.T) {
 			middleware.Reset()
 			defaults.RegisterUpTo("resolver")
 			middleware.Register(witness.Name(), func(*config.Config) middleware.Handler { return witness })
-			cfg := &config.Config{Bind: "127.0.0.1:0", Expire: 600, CacheSize: 10240}
+			cfg := &config.Config{Bind: "127.0.0.1:0", Expire: 600, CacheSize: 10240, CookieSecret: "verif-c10-cookie-secret"}
 			cfg.QueryTimeout.Duration = 3 * time.Second
 			middleware.Setup(cfg)
 			s := New(cfg)
@@ -726,6 +912,16 @@ func TestVerifC10Stress(t *testing.T) {
 			stopTCP()
 			emit("stress-udp-chain", ust, map[string]any{"inline_ready": s.InlineReady(), "resolver_calls": witness.calls.Load(), "clients": 20})
 			emit("stress-tcp-chain", tst, map[string]any{"clients": 8})
+
+			// ---- C: the same Server, one query at a time, on engines with so few slabs
+			// that consecutive clients are certain to be served on the same recycled slab
+			// (and its job-owned request / chain / carrier / edns-writer storage), the
+			// clients alternating and every query's OPT differing from the previous one's.
+			sentinel("recycle-chain")
+			rst := vC10RecycleUDP(t, s, rand.New(rand.NewSource(base+40000)), 160)
+			emit("recycle-udp-chain", rst, map[string]any{"slab_cap": 2, "clients": 4, "sequential": true})
+			rtt := vC10RecycleTCP(t, s, rand.New(rand.NewSource(base+41000)), 120)
+			emit("recycle-tcp-chain", rtt, map[string]any{"small_slabs": 1, "connections": 3, "sequential": true})
 			_ = f.Truncate(off)
 			middleware.Reset()
 		}
